@@ -12,7 +12,7 @@ from cgv.harness import Violation, lib
 
 ID = "C19"
 RULE = (
-    "cases: (callable, circuit, arguments, edit script) with the callable drawn from a registry of 70 "
+    "cases: (callable, circuit, arguments, edit script) with the callable drawn from a registry of 78 "
     "public entry points -- tx: strip_io/outputs/inputs/blackboxes, relabel, subcircuit, ternary, miter "
     "(self and pair), unroll, sequential_unroll, sensitization_transform (with/without endpoints), "
     "sensitivity_transform, limit_fanin, limit_fanout, acyclic_unroll, supergates (both forms), "
@@ -84,6 +84,14 @@ REG = {
     "props.signal_probability": lambda c, c2, p, t: cg.props.signal_probability(c, _first(c.nodes(), p), approx=False),
     "props.signal_probability_approx": lambda c, c2, p, t: cg.props.signal_probability(c, _first(c.nodes(), p), approx=True),
     "props.levelize": lambda c, c2, p, t: cg.props.levelize(c),
+    "props.influence_supergates": lambda c, c2, p, t: cg.props.influence(c, _first(c.outputs(), p), supergates=True, approx=False),
+    "props.avg_sensitivity_list": lambda c, c2, p, t: cg.props.avg_sensitivity(c, sorted(c.outputs())[:2], approx=False),
+    "props.influence_approx_logdir": lambda c, c2, p, t: cg.props.influence(c, _first(c.nodes(), p), approx=True, log_dir=os.path.join(t, "logs")),
+    "props.sensitize_assume": lambda c, c2, p, t: cg.props.sensitize(c, _first(c.nodes(), p), {_first(c.inputs(), p): True}),
+    "tx.syn": lambda c, c2, p, t: cg.tx.syn(c, suppress_output=True, working_dir=t),
+    "tx.aig": lambda c, c2, p, t: cg.tx.aig(c),
+    "utils.visualize": lambda c, c2, p, t: cg.visualize(c, os.path.join(t, "c.png")),
+    "sat.approx_model_count_xor": lambda c, c2, p, t: cg.sat.approx_model_count(c, {_first(c.nodes(), p): True}, use_xor_clauses=True),
     "sat.cnf": lambda c, c2, p, t: cg.sat.cnf(c),
     "sat.construct_solver": lambda c, c2, p, t: cg.sat.construct_solver(c, {_first(c.nodes(), p): True}),
     "sat.solve": lambda c, c2, p, t: cg.sat.solve(c, {_first(c.nodes(), p): bool(p % 2)}),
@@ -127,7 +135,7 @@ REG = {
     "arg.fill_blackbox": lambda c, c2, p, t: _host_bb(c).fill_blackbox("inst", c),
 }
 NAMES = sorted(REG)
-SMALL_ONLY = {"props.influence", "props.avg_sensitivity", "props.sensitivity", "tx.sensitivity_transform", "Circuit.kcuts",
+SMALL_ONLY = {"props.influence_supergates", "props.avg_sensitivity_list", "props.influence_approx_logdir", "props.influence", "props.avg_sensitivity", "props.sensitivity", "tx.sensitivity_transform", "Circuit.kcuts",
               "sat.model_count", "sat.approx_model_count", "props.signal_probability", "props.signal_probability_approx"}
 
 
